@@ -26,6 +26,8 @@ CREATE TABLE w (k TEXT PRIMARY KEY, v) WITHOUT ROWID;
 WITH RECURSIVE n(i) AS (SELECT 1 UNION ALL SELECT i+1 FROM n WHERE i<60)
 INSERT INTO t SELECT i, 'v'||(i%9), substr('ppppppppppppppppppppppppppppppppppppppppppppppppppppppppppppppp', 1, i%50) FROM n;
 INSERT INTO w VALUES ('a', 1), ('b', 2), ('c', 3);
+CREATE TABLE x01 (a, b); CREATE TABLE x02 (a, b); CREATE TABLE x03 (a, b); CREATE TABLE x04 (a, b); CREATE TABLE x05 (a, b); CREATE TABLE x06 (a, b);
+CREATE TABLE x07 (a, b); CREATE TABLE x08 (a, b); CREATE TABLE x09 (a, b); CREATE TABLE x10 (a, b); CREATE TABLE x11 (a, b); CREATE TABLE x12 (a, b);
 `
 
 func c07Ops() []Op {
@@ -109,6 +111,16 @@ func c07Scenarios(thorough bool) []c07Scenario {
 				{"W", "INSERT INTO w VALUES ('q', 9)", "RESERVED"},
 				{"W", "COMMIT", "committed"},
 			}},
+			c07Scenario{"schema-change-spilled-then-rolled-back/" + m, pr + "; PRAGMA cache_size=1", []c07Step{
+				{"W", "BEGIN", ""},
+				{"W", "ALTER TABLE t ADD COLUMN extra DEFAULT 'never committed'", "RESERVED: sqlite_master (several pages) changed in the cache"},
+				{"W", "CREATE TABLE uncommitted_table (a)", "RESERVED"},
+				{"W", manyInserts, "EXCLUSIVE: dirty pages, sqlite_master leaves included, spilled into the db file"},
+				{"W", "ROLLBACK", "rolled back: change counter and schema cookie are what they were"},
+				{"W", "BEGIN IMMEDIATE", "RESERVED"},
+				{"W", "INSERT INTO w VALUES ('z', 26)", "RESERVED"},
+				{"W", "COMMIT", "committed"},
+			}},
 			c07Scenario{"exclusive-mode/" + m, pr + "; PRAGMA locking_mode=EXCLUSIVE", []c07Step{
 				{"W", "BEGIN EXCLUSIVE", "EXCLUSIVE"},
 				{"W", "INSERT INTO t VALUES (504, 'uncommitted', 'p')", "EXCLUSIVE"},
@@ -121,7 +133,7 @@ func c07Scenarios(thorough bool) []c07Scenario {
 }
 
 func runC07(r *ev.Run) {
-	r.Rule = "writer scripts of a real SQLite connection in another process (small commit, two transactions back to back with synchronous FULL and OFF, rollback, spilling bulk insert with cache_size=1, commit blocked by a third reader = PENDING, locking_mode=EXCLUSIVE), journal modes DELETE (+TRUNCATE, PERSIST thorough), parked after EVERY statement; in every parked state every read operation (all low level and high level calls, the driver) runs on a fresh handle and on a long-lived handle; in addition one long-lived handle per SUBSET of the steps reads (Select on both tables, IndexedSelect) only at the steps of its subset, so every read schedule of a long-lived handle is covered; the writer's lock level is read from /proc/locks; oracle: PENDING or EXCLUSIVE => error and zero rows; RESERVED/SHARED/UNLOCKED => success and exactly the last committed content (dumped by a separate SQLite reader). second family (mid-read): a Select / IndexedSelect parked in its row callback, on a fresh handle and on a handle opened before another process grew the file threefold; the writer (one page cache: it wants to spill) begins and updates every row at row j and tries COMMIT or ROLLBACK at row k, for every j <= k (and, for a third of them, with a select-like call made from the first row's callback on the same handle): no row of the unfinished transaction is delivered, the result equals the state committed when the read started, the writer never holds EXCLUSIVE and never commits while the read is in progress, and can finish after it returned. non-trivial = states in which the writer holds RESERVED or more"
+	r.Rule = "writer scripts of a real SQLite connection in another process (small commit, two transactions back to back with synchronous FULL and OFF, rollback, spilling bulk insert with cache_size=1, a schema change spilled with a multi-page sqlite_master and then rolled back, commit blocked by a third reader = PENDING, locking_mode=EXCLUSIVE), journal modes DELETE (+TRUNCATE, PERSIST thorough), parked after EVERY statement; in every parked state every read operation (all low level and high level calls, the driver) runs on a fresh handle and on a long-lived handle; in addition one long-lived handle per SUBSET of the steps reads (Select on both tables, IndexedSelect) only at the steps of its subset, so every read schedule of a long-lived handle is covered; and one handle OPENED in every parked state, read at every later step; the writer's lock level is read from /proc/locks; oracle: PENDING or EXCLUSIVE => error and zero rows; RESERVED/SHARED/UNLOCKED => success and exactly the last committed content (dumped by a separate SQLite reader). second family (mid-read): a Select / IndexedSelect parked in its row callback, on a fresh handle and on a handle opened before another process grew the file threefold; the writer (one page cache: it wants to spill) begins and updates every row at row j and tries COMMIT or ROLLBACK at row k, for every j <= k (and, for a third of them, with a select-like call made from the first row's callback on the same handle): no row of the unfinished transaction is delivered, the result equals the state committed when the read started, the writer never holds EXCLUSIVE and never commits while the read is in progress, and can finish after it returned. non-trivial = states in which the writer holds RESERVED or more"
 	defer c07MidRead(r)
 	dir := ev.TmpDir("c07")
 	defer os.RemoveAll(dir)
@@ -182,6 +194,8 @@ func runC07(r *ev.Run) {
 				subset[mask] = le
 			}
 		}
+		openedAt := map[int]*Env{}
+		openedLevel := map[int]string{}
 		for k, st := range sc.steps {
 			who := W
 			if st.who == "R3" {
@@ -212,6 +226,38 @@ func runC07(r *ev.Run) {
 				}
 			}
 			mustFail := level == "PENDING" || level == "EXCLUSIVE"
+			// handles OPENED in an earlier writer state (whatever Open saw then) and not used since: their first and
+			// every later read must obey the same rules
+			for ok, le := range openedAt {
+				for oi, op := range ops {
+					if op.Name != "Select(t)" && op.Name != "Columns(t)" && op.Name != "Tables" && op.Name != "IndexedSelect(t,t_v)" && op.Name != "Select(w)" {
+						continue
+					}
+					var res OpResult
+					p := Safely(func() { res = op.Run(le, 0) })
+					r.Eval(1)
+					r.Trans(1)
+					a2 := map[string]interface{}{"op": op.Name, "handle": fmt.Sprintf("opened after step %d (writer then: %s)", ok, openedLevel[ok])}
+					for kk, v := range art {
+						a2[kk] = v
+					}
+					switch {
+					case p != nil:
+						r.Violation("C07:panic", fmt.Sprintf("%s panics while the writer is %s: %v", op.Name, level, p), a2)
+					case mustFail && (res.Err == nil || len(res.Rows) > 0):
+						r.Violation("C07:read-under-"+strings.ToLower(level)+":"+opKind(op.Name), fmt.Sprintf("%s (handle opened after step %d) while the writer holds %s: err=%v, %d rows", op.Name, ok, level, res.Err, len(res.Rows)), a2)
+					case !mustFail && res.Err != nil:
+						r.Violation("C07:refused-under-"+strings.ToLower(level)+":"+opKind(op.Name), fmt.Sprintf("%s (handle opened after step %d) fails (%v) although the writer holds only %s", op.Name, ok, res.Err, level), a2)
+					case !mustFail && !RowsEq(res.Rows, committed[oi].Rows, false):
+						r.Violation("C07:stale-or-uncommitted:"+opKind(op.Name), fmt.Sprintf("%s on a handle opened after step %d (writer then %s), now at step %d with the writer %s: %d rows, the last committed state has %d: %s", op.Name, ok, openedLevel[ok], k, level, len(res.Rows), len(committed[oi].Rows), firstDiffSafe(res.Rows, committed[oi].Rows)), a2)
+					}
+				}
+			}
+			if le, err := OpenEnv(path); err == nil {
+				openedAt[k] = le
+				openedLevel[k] = level
+				defer le.H.Close()
+			}
 			// handles that read only at SOME steps: handle s (a bit mask over the steps) reads now iff bit k is set
 			for mask, le := range subset {
 				if mask&(1<<uint(k)) == 0 {
